@@ -32,6 +32,6 @@ StepCells(p, e) ==
 HasModel(op) == op \in {"add", "addstr", "raddstr", "mul", "slice", "splice", "insert", "append", "join", "withatts",
                         "removeatts", "copy", "rewrap"}
 \* ops whose results the model does not compute (several results or str-defined): only immutability is judged
-OtherOps == {"split", "splitlines", "ljust", "rjust", "newstr", "wslice", "wsplit", "upper", "strip", "linesplit", "setitem", "widthat", "eqraw"}
+OtherOps == {"split", "splitlines", "ljust", "rjust", "newstr", "wslice", "wsplit", "upper", "strip", "linesplit", "setitem", "widthat", "eqraw", "iterate"}
 
 =============================================================================
